@@ -22,11 +22,18 @@ def _digest(arr):
     return hashlib.sha1(txt.encode()).hexdigest()[:16]
 
 
+_CALLER_DATA = {}
+
+
 def _data(name):
+    """The caller's arrays: created once per process and handed to every call that names them (a routine that writes into its
+    input changes what the next call receives - seen as a result that depends on the history)."""
     import numpy as np
-    rs = np.random.RandomState({"a": 1, "b": 2, "c": 3, "m": 4, "v": 5}[name])
-    shape = {"a": (8, 6), "b": (5, 9), "c": (8, 6), "m": (16, 12), "v": (4, 5, 3)}[name]
-    return rs.rand(*shape)
+    if name not in _CALLER_DATA:
+        rs = np.random.RandomState({"a": 1, "b": 2, "c": 3, "m": 4, "v": 5}[name])
+        shape = {"a": (8, 6), "b": (5, 9), "c": (8, 6), "m": (16, 12), "v": (4, 5, 3)}[name]
+        _CALLER_DATA[name] = rs.rand(*shape)
+    return _CALLER_DATA[name]
 
 
 def _pair(darsia, idx):
@@ -64,14 +71,14 @@ def execute(darsia, ctx, key):
         J = ctx.setdefault("J", darsia.Jacobi(maxiter=4))
         J.update_params(dim=int(op[3]), mass_coeff=float(op[1]), diffusion_coeff=float(op[2]))
         x0 = _data("v") if int(op[3]) == 3 else _data("a")
-        return J(x0.copy(), rhs=x0 * 2.0, h=1.0)
+        return J(x0, rhs=x0 * 2.0, h=1.0)
     if name == "JACA":         # JACA|scale : array-valued coefficients, modified between calls by the caller
         J = ctx.setdefault("JA", darsia.Jacobi(maxiter=3))
         coeff = ctx.setdefault("coeff", np.ones((8, 6)))
         coeff[...] = float(op[1])
         J.update_params(dim=2, mass_coeff=1.0, diffusion_coeff=coeff)
         x0 = _data("a")
-        return J(x0.copy(), rhs=x0 * 2.0, h=1.0)
+        return J(x0, rhs=x0 * 2.0, h=1.0)
     if name == "H1img":
         img = darsia.Image(_data(op[1]), space_dim=2, dimensions=[1.0, 1.0], scalar=True)
         return darsia.H1_regularization(img, mu=float(op[2])).img
@@ -79,18 +86,18 @@ def execute(darsia, ctx, key):
         J = ctx.setdefault("J", darsia.Jacobi(maxiter=4))
         J.update_params(dim=2, mass_coeff=float(op[1]), diffusion_coeff=float(op[2]))
         x0 = _data("a")
-        return J(x0.copy(), rhs=x0 * 2.0, h=float(op[3]))
+        return J(x0, rhs=x0 * 2.0, h=float(op[3]))
     if name == "MG":           # MG|mass|diff
         M = ctx.setdefault("MG", darsia.MG(depth=2, smoother_iterations=3, maxiter=3, dim=2, mass_coeff=1.0, diffusion_coeff=1.0))
         M.update_params(dim=2, mass_coeff=float(op[1]), diffusion_coeff=float(op[2]))
         x0 = _data("m")
-        return M(x0.copy(), rhs=x0 * 2.0)
+        return M(x0, rhs=x0 * 2.0)
     if name == "MGH":          # MGH|seed : multigrid with heterogeneous (array) coefficients set once at construction
         if "MGH" not in ctx:
             rs = np.random.RandomState(7)
             ctx["MGH"] = darsia.MG(depth=1, smoother_iterations=2, maxiter=2, dim=2, mass_coeff=1.0 + rs.rand(16, 12), diffusion_coeff=0.5 + rs.rand(16, 12))
         x0 = _data("m")
-        return ctx["MGH"](x0.copy(), rhs=x0 * float(op[1]))
+        return ctx["MGH"](x0, rhs=x0 * float(op[1]))
     if name == "MGU":          # MGU|mass|diff : ONE multigrid object whose coefficients are replaced for every call; "A<seed>" = array, else scalar
         rs0 = np.random.RandomState(7)
         M = ctx.setdefault("MGU", darsia.MG(depth=1, smoother_iterations=2, maxiter=2, dim=2, mass_coeff=1.0 + rs0.rand(16, 12), diffusion_coeff=0.5 + rs0.rand(16, 12)))
@@ -100,7 +107,7 @@ def execute(darsia, ctx, key):
 
         M.update_params(dim=2, mass_coeff=coeff(op[1], 1.0), diffusion_coeff=coeff(op[2], 0.5))
         x0 = _data("m")
-        return M(x0.copy(), rhs=x0 * 2.0)
+        return M(x0, rhs=x0 * 2.0)
     if name == "SBTVDX":       # SBTVDX|mu : split Bregman TVD started from ONE caller-owned initial guess (image, d0, b0) kept between calls
         if "x0" not in ctx:
             rs = np.random.RandomState(11)
